@@ -50,7 +50,10 @@ m = {
     "checks": checks,
     "notes": "Static analysis only: every check parses /repo/pygamma_agreement on each run and never imports or executes it. "
              "Exit 0 = all obligations discharged (KNOWN-FINDING lines for listed findings), 1 = VIOLATION, 2 = ANALYSIS-ERROR "
-             "(anchor vanished / checker self-validation failed). known findings: /verif/known_findings.json.",
+             "(anchor vanished / checker self-validation failed). known findings: /verif/known_findings.json. "
+             "Every check also discharges shared closedness obligations on top of its own rules: every implementation a dispatched call can "
+             "reach (class-hierarchy dispatch) is analysed or reported, the one-line specifications (R-SUP) of the accessors reachable from "
+             "the analysed functions, no unknown decorator / parameter rebinding / unanalysed override on analysed code.",
     "not_applicable": na,
 }
 (V / "MANIFEST.json").write_text(json.dumps(m, indent=1) + "\n")
